@@ -454,6 +454,9 @@ impl DrawExecutor {
     }
 
     fn draw_poly(&mut self, parameters: &[i32]) {
+        if parameters.len() < 2 {
+            return;
+        }
         let mut x = parameters[0];
         let mut y = parameters[1];
         let mask = self.line_type.get_mask();
